@@ -1161,7 +1161,8 @@ class RZILTransformer(Transformer):
                 return None
 
         self.il_ops_holder.rm_op_by_name(a.get_name())
-        name = f'const_{"neg" if result < 0 else "pos"}_{result}'
+        # The name becomes part of the names of C variables. So no sign character in it.
+        name = f'const_{"neg" if result < 0 else "pos"}_{abs(result)}'
         return Number(name, result, a_type)
 
     def simplify_arithmetic_expr(self, items) -> Pure:
@@ -1202,7 +1203,8 @@ class RZILTransformer(Transformer):
         if a_type.signed and result >> (a_type.bit_width - 1):
             result -= 1 << a_type.bit_width
 
-        name = f'const_{"neg" if items[0] == "-" else "pos"}{items[1]}{items[2] if items[2] else ""}'
+        # The name becomes part of the names of C variables. So no operator character in it.
+        name = f'const_{"neg" if result < 0 else "pos"}_{abs(result)}'
         return Number(name, result, a_type)
 
     def simplify_compare_expr(self, items) -> Pure:
